@@ -28,6 +28,7 @@ import (
 type kitErrAnalysis struct {
 	c       *Ctx
 	summary map[*types.Func]bool
+	depth   int
 }
 
 func (c *Ctx) kitErr() *kitErrAnalysis {
@@ -201,7 +202,7 @@ func (k *kitErrAnalysis) mayKitAt(pk *packages.Package, fc *funcCFG, body *ast.B
 	entry := false
 	if v.Pos() < body.Pos() { // parameter or named result
 		if vv, ok := v.(*types.Var); ok && vv.Parent() != nil && vv.Pos() < body.Pos() && k.isParam(pk, body, vv) {
-			entry = true
+			entry = k.paramMayKit(body, vv)
 		}
 	}
 	blocks := fc.g.Blocks
@@ -241,6 +242,57 @@ func (k *kitErrAnalysis) mayKitAt(pk *packages.Package, fc *funcCFG, body *ast.B
 		}
 	}
 	return through(tb, ti, in[tb])
+}
+
+// paramMayKit: may some caller hand a schema-library error to this parameter? Decided at the call sites when the
+// function is a declared, unexported function of the library all of whose uses are calls (two levels); "may" otherwise.
+func (k *kitErrAnalysis) paramMayKit(body *ast.BlockStmt, v *types.Var) bool {
+	if k.depth > 2 {
+		return true
+	}
+	var f *Fn
+	for _, g := range k.c.libFns() {
+		if g.Decl.Body == body {
+			f = g
+		}
+	}
+	if f == nil {
+		return true // a function literal
+	}
+	idx := -1
+	sig := f.Obj.Type().(*types.Signature)
+	for i := 0; i < sig.Params().Len(); i++ {
+		if sig.Params().At(i) == v {
+			idx = i
+		}
+	}
+	if idx < 0 {
+		return true
+	}
+	sites, all := k.c.callersOf(f)
+	if !all || len(sites) == 0 {
+		return true
+	}
+	k.depth++
+	defer func() { k.depth-- }()
+	for _, cs := range sites {
+		arg := argFor(cs, idx)
+		if arg == nil {
+			return true
+		}
+		// the innermost body (function or literal) that holds the call
+		gb := cs.g.Decl.Body
+		ast.Inspect(cs.g.Decl.Body, func(nd ast.Node) bool {
+			if lit, ok := nd.(*ast.FuncLit); ok && lit.Body.Pos() <= cs.call.Pos() && cs.call.End() <= lit.Body.End() {
+				gb = lit.Body
+			}
+			return true
+		})
+		if k.exprMayKit(cs.g.Pkg, buildCFG(gb), gb, arg, cs.call) {
+			return true
+		}
+	}
+	return false
 }
 
 func (k *kitErrAnalysis) isParam(pk *packages.Package, body *ast.BlockStmt, v *types.Var) bool {
